@@ -3,35 +3,35 @@ use std::{
     num::NonZero,
 };
 
-use super::read_line;
+use super::read_line_bytes;
 use crate::fai::Record;
 
-const FIELD_DELIMITER: char = '\t';
+const FIELD_DELIMITER: u8 = b'\t';
 const MAX_FIELDS: usize = 5;
 
 pub(super) fn read_record<R>(
     reader: &mut R,
-    buf: &mut String,
+    buf: &mut Vec<u8>,
     record: &mut Record,
 ) -> io::Result<usize>
 where
     R: BufRead,
 {
-    match read_line(reader, buf)? {
+    match read_line_bytes(reader, buf)? {
         0 => Ok(0),
         n => {
-            *record = parse_record(buf)?;
+            *record = parse_record_bytes(buf)?;
             Ok(n)
         }
     }
 }
 
-pub(crate) fn parse_record(s: &str) -> io::Result<Record> {
-    if s.is_empty() {
+pub(crate) fn parse_record_bytes(src: &[u8]) -> io::Result<Record> {
+    if src.is_empty() {
         return Err(io::Error::new(io::ErrorKind::InvalidData, "empty input"));
     }
 
-    let mut fields = s.splitn(MAX_FIELDS, FIELD_DELIMITER);
+    let mut fields = src.splitn(MAX_FIELDS, |&b| b == FIELD_DELIMITER);
 
     let name = parse_string(&mut fields)
         .ok_or_else(|| io::Error::new(io::ErrorKind::InvalidData, "missing name"))?;
@@ -61,31 +61,44 @@ pub(crate) fn parse_record(s: &str) -> io::Result<Record> {
     ))
 }
 
-fn parse_string<'a, I>(fields: &mut I) -> Option<&'a str>
+fn parse_string<'a, I>(fields: &mut I) -> Option<&'a [u8]>
 where
-    I: Iterator<Item = &'a str>,
+    I: Iterator<Item = &'a [u8]>,
 {
     fields.next()
 }
 
 fn parse_u64<'a, I>(fields: &mut I) -> Option<io::Result<u64>>
 where
-    I: Iterator<Item = &'a str>,
+    I: Iterator<Item = &'a [u8]>,
 {
-    fields.next().map(|s| {
-        s.parse()
-            .map_err(|e| io::Error::new(io::ErrorKind::InvalidData, e))
+    fields.next().map(|src| {
+        parse_str(src).and_then(|s| {
+            s.parse()
+                .map_err(|e| io::Error::new(io::ErrorKind::InvalidData, e))
+        })
     })
 }
 
 fn parse_nonzero_u64<'a, I>(fields: &mut I) -> Option<io::Result<NonZero<u64>>>
 where
-    I: Iterator<Item = &'a str>,
+    I: Iterator<Item = &'a [u8]>,
 {
-    fields.next().map(|s| {
-        s.parse()
-            .map_err(|e| io::Error::new(io::ErrorKind::InvalidData, e))
+    fields.next().map(|src| {
+        parse_str(src).and_then(|s| {
+            s.parse()
+                .map_err(|e| io::Error::new(io::ErrorKind::InvalidData, e))
+        })
     })
+}
+
+fn parse_str(src: &[u8]) -> io::Result<&str> {
+    str::from_utf8(src).map_err(|e| io::Error::new(io::ErrorKind::InvalidData, e))
+}
+
+#[cfg(test)]
+fn parse_record(s: &str) -> io::Result<Record> {
+    parse_record_bytes(s.as_bytes())
 }
 
 #[cfg(test)]
@@ -113,6 +126,23 @@ mod tests {
 
         assert!(matches!(
             parse_record("sq0\tndls"),
+            Err(e) if e.kind() == io::ErrorKind::InvalidData
+        ));
+
+        Ok(())
+    }
+
+    #[test]
+    fn test_parse_record_with_non_utf8_fields() -> io::Result<()> {
+        let line_base_count = const { NonZero::new(80).unwrap() };
+        let line_width = const { NonZero::new(81).unwrap() };
+        assert_eq!(
+            parse_record_bytes(b"sq\xf00\t10946\t4\t80\t81")?,
+            Record::new(&b"sq\xf00"[..], 10946, 4, line_base_count, line_width)
+        );
+
+        assert!(matches!(
+            parse_record_bytes(b"sq0\t10946\xf0\t4\t80\t81"),
             Err(e) if e.kind() == io::ErrorKind::InvalidData
         ));
 
